@@ -152,7 +152,8 @@ def run(ctx):
         validate(ctx, tr, info, "random gate schedules")
         os.remove(tr)
         tr = os.path.join(ctx.wd, "ab_free.ndjson")
-        p = vlib.run_harness(["ab", "-out", tr, "-seed", vlib.seed() + 7, "-n", 20000 if T else 3000, "-big", "-free"], timeout=1800)
+        p = vlib.run_harness(["ab", "-out", tr, "-seed", vlib.seed() + 7, "-n", 20000 if T else 3000, "-big", "-free",
+                              "-many", 200000 if T else 70000], timeout=1800)
         info = json.loads(p.stdout.strip().splitlines()[-1])
         validate(ctx, tr, info, "free-running goroutines", fine=False)
         os.remove(tr)
